@@ -28,6 +28,7 @@ import sys
 from math import comb
 
 from . import common, tlc
+from .exc import exc_name
 
 KINDS = ("kcnf", "kxor")
 
@@ -64,7 +65,7 @@ def answer_formula(rec, thunk):
     try:
         F = thunk()
     except Exception as e:          # judged by the specification
-        rec["outcome"] = type(e).__name__
+        rec["outcome"] = exc_name(e)
         rec["msg"] = str(e)[:160]
         return rec
     rec["nvars"] = int(F.number_of_variables())
@@ -174,7 +175,7 @@ def run_cli(rid, kind, k, n, m, plant, seed):
         rec["msg"] = str(e)[:160]
         return rec
     except Exception as e:
-        rec["outcome"] = type(e).__name__
+        rec["outcome"] = exc_name(e)
         rec["msg"] = str(e)[:160].replace("\n", " ")
         return rec
     rec["nvars"], rec["clauses"] = parse_dimacs(text)
